@@ -61,7 +61,12 @@ def is_banned_layout_call(t, body=None):
     if name == "default" and (c.get("trait") or "").endswith("default::Default") and body is not None:
         st = c.get("self_ty") or ""
         preds = body.raw.get("preds") or (body.prog.bodies.get(body.root).raw.get("preds") if body.root and body.root in body.prog.bodies else [])
-        if any(p.startswith(st + ": ndarray::Dimension") for p in (preds or [])):
+        import re as _re
+        base = st
+        m_ = _re.match(r"<(\w+) as ndarray::Dimension>::Pattern$", st) or _re.match(r"(\w+)::Pattern$", st)
+        if m_:
+            base = m_.group(1)
+        if any(p.startswith(base + ": ndarray::Dimension") for p in (preds or [])):
             return "Default::default() of the generic dimension type `%s` (for IxDyn this is the 1-D index [0], not ndim zeros)" % st
     path = c.get("resolved") or c.get("path") or ""
     krate = c.get("krate")
